@@ -33,6 +33,53 @@ func (c14) Count(tier string) int {
 var c14ValCols = []string{"v", "u", "g"}
 var c14KeyCols = []string{"k1", "k2"}
 
+var c14ArgCols = []string{"v", "u", "g"}
+
+// c14Style (cfg `colstyle`): how the query spells its columns.
+//   nest — the partition keys are nested fields `dev.k1`, `dev.k2` (the rows carry them under `dev`)
+//   qual — the stream has an alias (`FROM stream s`) and the column an analytic call works on is written `s.v`, `s.u`, `s.g`
+var c14Style string
+
+func c14SetStyle(cfg [][]string) func() {
+	c14Style = ""
+	for _, l := range cfg {
+		if l[0] == "colstyle" && len(l) > 1 {
+			c14Style = l[1]
+		}
+	}
+	switch c14Style {
+	case "nest":
+		c14KeyCols = []string{"dev.k1", "dev.k2"}
+	case "qual":
+		c14ArgCols = []string{"s.v", "s.u", "s.g"} // the first argument of an analytic call only
+	case "qualw": // also in wrapper expressions and WHEN / WHERE predicates (recorded finding: read as a nested path, NULL)
+		c14ArgCols = []string{"s.v", "s.u", "s.g"}
+		c14ValCols = []string{"s.v", "s.u", "s.g"}
+	}
+	return func() {
+		c14Style = ""
+		c14ArgCols = []string{"v", "u", "g"}
+		c14ValCols = []string{"v", "u", "g"}
+		c14KeyCols = []string{"k1", "k2"}
+	}
+}
+
+// c14Shape puts the flat cells of a row where the query's spelling expects them.
+func c14Shape(row map[string]interface{}) map[string]interface{} {
+	if c14Style != "nest" {
+		return row
+	}
+	dev := map[string]interface{}{}
+	for _, k := range []string{"k1", "k2"} {
+		if v, ok := row[k]; ok {
+			dev[k] = v
+			delete(row, k)
+		}
+	}
+	row["dev"] = dev
+	return row
+}
+
 // ---------------------------------------------------------------- tokens
 
 func c14Fbits(x float64) string { return fmt.Sprintf("f:%016x", math.Float64bits(x)) }
@@ -153,7 +200,7 @@ func c14Bool(tok string) string {
 func c14CallsSQL(n int, toks []string, fieldIdx int) []string {
 	var out []string
 	for ; n > 0; n-- {
-		col := func(s string) string { i, _ := strconv.Atoi(s); return c14ValCols[i] }
+		col := func(s string) string { i, _ := strconv.Atoi(s); return c14ArgCols[i] }
 		switch toks[0] {
 		case "lag":
 			args := []string{col(toks[1])}
@@ -280,7 +327,11 @@ func c14Build(cfg [][]string) c14Query {
 	} else if len(conj) == 2 {
 		where = " WHERE id < 0 OR (" + conj[0] + " AND " + conj[1] + ")"
 	}
-	q.sql = "SELECT " + strings.Join(sel, ", ") + " FROM stream" + where
+	from := " FROM stream"
+	if c14Style == "qual" || c14Style == "qualw" {
+		from = " FROM stream s"
+	}
+	q.sql = "SELECT " + strings.Join(sel, ", ") + from + where
 	return q
 }
 
@@ -295,7 +346,7 @@ func c14Row(op []string) (int, map[string]interface{}) {
 			row[n] = v
 		}
 	}
-	return id, row
+	return id, c14Shape(row)
 }
 
 func c14Render(out map[string]interface{}) []string {
@@ -325,6 +376,7 @@ func c14CopyRow(r map[string]interface{}) map[string]interface{} {
 }
 
 func (c14) Exec(c Case) [][][]string {
+	defer c14SetStyle(c.Cfg)()
 	q := c14Build(c.Cfg)
 	out := make([][][]string, len(c.Ops))
 	fail := func(path, what string) {
@@ -361,7 +413,7 @@ func (c14) Exec(c Case) [][][]string {
 			if v, ok := c14Cell(op[2]); ok {
 				row["k2"] = v
 			}
-			out[i] = [][]string{{"key", hx(stream.VerifAnalyticPartitionKey(c14ColList(op[3], c14KeyCols), row))}}
+			out[i] = [][]string{{"key", hx(stream.VerifAnalyticPartitionKey(c14ColList(op[3], c14KeyCols), c14Shape(row)))}}
 		default:
 			out[i] = [][]string{{"bad-op"}}
 		}
@@ -411,7 +463,7 @@ func c14Async(q c14Query, c Case) ([][]string, bool) {
 			a.Emit(c14CopyRow(row))
 		}
 	}
-	a.Emit(map[string]interface{}{"id": -1, "k1": "\x00sentinel", "k2": "\x00sentinel"})
+	a.Emit(c14Shape(map[string]interface{}{"id": -1, "k1": "\x00sentinel", "k2": "\x00sentinel"}))
 	got := map[int][]map[string]interface{}{}
 	var order []int
 	sentinel := false
@@ -633,6 +685,23 @@ func (c14) Gen(rng *rand.Rand, tier string, idx int) Case {
 		}
 		c.Cfg = append(c.Cfg, []string{"where", plain, cmp}, append([]string{"wfield"}, f...))
 		c.Stat = append(c.Stat, "where-analytic")
+	}
+	// spelling of the columns: nested partition keys (`dev.k1`) / a stream alias with qualified value columns (`s.v`)
+	hasFanOut := false
+	for _, l := range c.Cfg {
+		for _, t := range l {
+			if t == "changedcols" {
+				hasFanOut = true
+			}
+		}
+	}
+	switch k := rng.Intn(6); {
+	case k == 0:
+		c.Cfg = append(c.Cfg, []string{"colstyle", "nest"})
+		c.Stat = append(c.Stat, "colstyle-nested-keys")
+	case k == 1 && !hasFanOut:
+		c.Cfg = append(c.Cfg, []string{"colstyle", "qual"})
+		c.Stat = append(c.Stat, "colstyle-qualified-values")
 	}
 	c.Cfg = append(c.Cfg, []string{"sql", hx(c14Build(c.Cfg).sql)})
 	// partitions: 2–5 key tuples, interleaved at random
